@@ -82,6 +82,7 @@ func (X *Exec) execInstr(fr *Frame, ins ssa.Instruction, st *State) {
 		mt := i.Map.Type().Underlying().(*types.Map)
 		X.oblige(st, "nil", "", "assignment to entry in nil map "+i.Map.Name(), i.Pos(), ts.Not(ts.Eq(m.T, ts.IntLit(0))))
 		X.applyUpdateHooks(fr, st, i, m)
+		X.checkGuardedMapWrite(fr, st, i.Map, i.Pos())
 		X.mapStore(st, mt, m.T, X.asTerm(st, X.val(fr, i.Key), mt.Key()), X.asTerm(st, X.val(fr, i.Value), mt.Elem()))
 	case *ssa.Slice:
 		X.execSlice(fr, i, st)
@@ -173,7 +174,11 @@ func (X *Exec) execInstr(fr *Frame, ins ssa.Instruction, st *State) {
 	case *ssa.RunDefers:
 		X.execRunDefers(fr, i, st)
 	case *ssa.Send:
-		// channel send: no effect on the modelled state
+		// channel send: no effect on the modelled state; in lock mode a send that can block (not a case of a select)
+		// must not be made with a mutex held - whoever is to receive may need that mutex
+		if X.LockMode {
+			X.noLockAcrossCallback(fr, st, "a blocking channel send on "+srcName(i.Chan), i.Pos())
+		}
 	case *ssa.Select:
 		X.execSelect(fr, i, st)
 	case *ssa.Range:
